@@ -43,6 +43,8 @@ Content(id) ==
     [] id = "stdin" -> <<T2(122, 49), T2(122, 50), T2(122, 51)>>
     [] OTHER -> <<>>
 Exists(id) == id # "missing"
+\* what a FOLLOWED file delivers: its newline-terminated lines only (C10: an unterminated tail is never delivered) -- fc ends without a line break
+FollowContent(id) == IF id = "fc" THEN <<T2(99, 49)>> ELSE Content(id)
 
 \* ---- statements: what they name and what they mean over a sequence of lines ----
 \*   all     SELECT x FROM t                      count   SELECT COUNT(*) AS n FROM t
@@ -82,7 +84,7 @@ Init ==
   /\ follow \in BOOLEAN
   \* a followed file is never "finished": only runs that end by themselves are modelled -- a LIMIT that the first file can satisfy
   /\ follow => /\ query \in {"limit1", "limit2"} /\ ~usestdin /\ ~stats /\ defs \in {"ok", "two"}
-               /\ files # <<>> /\ Len(Content(files[1])) >= (IF query = "limit1" THEN 1 ELSE 2)
+               /\ files # <<>> /\ Len(FollowContent(files[1])) >= (IF query = "limit1" THEN 1 ELSE 2)
   /\ pc = "defs" /\ chosen = <<>> /\ out = <<>> /\ exit = 0
 
 LoadDefs ==
@@ -114,7 +116,7 @@ OpenFiles ==
 
 \* every chosen file is opened (OpenFiles), but follow mode then reads the first one only
 Used == IF follow THEN <<chosen[1]>> ELSE chosen
-AllLines == LET RECURSIVE cat(_) cat(i) == IF i = 0 THEN <<>> ELSE cat(i - 1) \o Content(Used[i]) IN cat(Len(Used))
+AllLines == LET RECURSIVE cat(_) cat(i) == IF i = 0 THEN <<>> ELSE cat(i - 1) \o (IF follow THEN FollowContent(Used[i]) ELSE Content(Used[i])) IN cat(Len(Used))
 TableKnown == CASE query = "notable" -> FALSE [] query = "second" -> defs = "two" [] OTHER -> defs \in {"ok", "two"}
 
 Execute ==
